@@ -9,13 +9,19 @@ use core::arch::x86_64::*;
 
 /// AVX empowered implementation that will only work on `x86_64` with avx2 enabled at the CPU
 /// level.
-#[derive(Debug, Default, Clone)]
+#[derive(Debug, Clone)]
 pub struct AvxHash {
     v0: V4x64U,
     v1: V4x64U,
     mul0: V4x64U,
     mul1: V4x64U,
     buffer: HashPacket,
+}
+
+impl Default for AvxHash {
+    fn default() -> Self {
+        unsafe { AvxHash::force_new(Key::default()) }
+    }
 }
 
 impl HighwayHash for AvxHash {
